@@ -15,11 +15,14 @@ package main
 // baseline.
 
 import (
+	"bufio"
 	"bytes"
 	"context"
 	"errors"
 	"fmt"
+	"io"
 	"os"
+	"os/exec"
 	"runtime"
 	"strconv"
 	"strings"
@@ -266,7 +269,6 @@ type econtroller struct {
 	byGid   map[uint64]*eactor
 	self    uint64
 	trace   []string
-	docID   atomic.Int64
 	hung    bool
 	ignored map[uint64]bool // goroutines that existed before the scenario (leaked by earlier ones)
 }
@@ -395,8 +397,10 @@ func classifyErr(err error) string {
 
 var engineHandle = lungo.Handle{"db", "c"}
 
+var engineDocID atomic.Int64
+
 func (ct *econtroller) insert(txn *lungo.Transaction, w int) {
-	doc := bsonkit.MustConvert(bson.M{"_id": ct.docID.Add(1), "w": int64(w)})
+	doc := bsonkit.MustConvert(bson.M{"_id": engineDocID.Add(1), "w": int64(w)})
 	_, _ = txn.Insert(engineHandle, bsonkit.List{doc}, true)
 }
 
@@ -699,10 +703,16 @@ func timed(d time.Duration, fn func()) (time.Duration, bool) {
 // probe write proceeds immediately, Close returns, every later call returns
 // ErrEngineClosed promptly, background work has stopped.
 func engineEpilogue(engine *lungo.Engine, base int) (string, int64) {
+	return engineEpilogueOpt(engine, base, true)
+}
+
+// strictSnap: no background writer can be active (the expiry goroutine never
+// ticks), so e.txn and the token must already be free before the probe.
+func engineEpilogueOpt(engine *lungo.Engine, base int, strictSnap bool) (string, int64) {
 	var probe time.Duration
 	snap := lungo.VerifSnapshot(engine)
 	if snap.Alive {
-		if snap.HasTxn || snap.TokenInUse {
+		if strictSnap && (snap.HasTxn || snap.TokenInUse) {
 			return fmt.Sprintf("WEDGED-STATE txn=%v token=%v", snap.HasTxn, snap.TokenInUse), 0
 		}
 		var perr error
@@ -868,6 +878,116 @@ func genEngineScenario(r *rng) *escenario {
 	return sc
 }
 
+// ---- worker process ----
+//
+// A scenario that hangs leaves its goroutines behind (they cannot be killed),
+// and every later quiescence check pays for them in runtime.Stack.  Scenarios
+// therefore run in a worker process (`harness engine-worker`, one case per
+// line on stdin, one packed result per line on stdout) that is replaced after
+// every verdict other than ok.
+
+func showSx(n *sx) string {
+	if !n.isL {
+		return n.atom
+	}
+	parts := make([]string, len(n.list))
+	for i, c := range n.list {
+		parts[i] = showSx(c)
+	}
+	return "(" + strings.Join(parts, " ") + ")"
+}
+
+func enginePacked(c *sx) string {
+	sc := parseScenario(c)
+	out := runEngineScenario(sc, newRng(sc.seed))
+	text := fmt.Sprintf("(engine %s (trace %s) (res %s))", sc.header(), strings.Join(out.trace, " "), strings.ReplaceAll(out.results, ":", "_"))
+	return text + enginePackSep + out.verdict
+}
+
+func engineWorkerMain() {
+	in := bufio.NewScanner(os.Stdin)
+	in.Buffer(make([]byte, 1<<20), 1<<26)
+	w := bufio.NewWriter(os.Stdout)
+	for in.Scan() {
+		c, err := parseSx(in.Text())
+		if err != nil {
+			fmt.Fprintln(w, "BAD-CASE")
+		} else {
+			fmt.Fprintln(w, enginePacked(c))
+		}
+		w.Flush()
+	}
+}
+
+type engineWorkerProc struct {
+	cmd   *exec.Cmd
+	stdin io.WriteCloser
+	lines chan string
+}
+
+var (
+	engineWorkerMu sync.Mutex
+	engineWorkerP  *engineWorkerProc
+)
+
+func engineViaWorker(caseText string) string {
+	if os.Getenv("VERIF_ENGINE_INPROC") != "" {
+		c, _ := parseSx(caseText)
+		return enginePacked(c)
+	}
+	engineWorkerMu.Lock()
+	defer engineWorkerMu.Unlock()
+	for attempt := 0; attempt < 2; attempt++ {
+		if engineWorkerP == nil {
+			cmd := exec.Command(os.Args[0], "engine-worker")
+			cmd.Env = append(os.Environ(), "VERIF_ENGINE_INPROC=1")
+			cmd.Stderr = os.Stderr
+			stdin, err1 := cmd.StdinPipe()
+			stdout, err2 := cmd.StdoutPipe()
+			if err1 != nil || err2 != nil || cmd.Start() != nil {
+				c, _ := parseSx(caseText)
+				return enginePacked(c) // cannot start a worker: run in process
+			}
+			p := &engineWorkerProc{cmd: cmd, stdin: stdin, lines: make(chan string, 1)}
+			go func() {
+				sc := bufio.NewScanner(stdout)
+				sc.Buffer(make([]byte, 1<<20), 1<<26)
+				for sc.Scan() {
+					p.lines <- sc.Text()
+				}
+				close(p.lines)
+			}()
+			engineWorkerP = p
+		}
+		p := engineWorkerP
+		kill := func() {
+			_ = p.stdin.Close()
+			_ = p.cmd.Process.Kill()
+			go func() { _ = p.cmd.Wait() }()
+			engineWorkerP = nil
+		}
+		if _, err := io.WriteString(p.stdin, caseText+"\n"); err != nil {
+			kill()
+			continue
+		}
+		select {
+		case line, ok := <-p.lines:
+			if !ok {
+				kill()
+				continue // the worker died (a fatal runtime error is a finding only if it repeats)
+			}
+			if !strings.HasSuffix(line, enginePackSep+"ok") {
+				kill() // leaked goroutines stay in the old process
+			}
+			return line
+		case <-time.After(45 * time.Second):
+			kill()
+			return "HANG worker did not answer"
+		}
+	}
+	return "WORKER-DIED"
+}
+
 // ---- family ----
 
 const enginePackSep = " ==> "
@@ -879,12 +999,7 @@ func init() {
 			sc := genEngineScenario(r)
 			return fmt.Sprintf("(engine %s (trace) (res) (seed %d))", sc.header(), r.u64()%1000000007)
 		},
-		run: func(c *sx) string {
-			sc := parseScenario(c)
-			out := runEngineScenario(sc, newRng(sc.seed))
-			text := fmt.Sprintf("(engine %s (trace %s) (res %s))", sc.header(), strings.Join(out.trace, " "), strings.ReplaceAll(out.results, ":", "_"))
-			return text + enginePackSep + out.verdict
-		},
+		run: func(c *sx) string { return engineViaWorker(showSx(c)) },
 		rewrite: func(c *sx, packed string) (string, string) {
 			i := strings.Index(packed, enginePackSep)
 			if i < 0 {
